@@ -195,6 +195,30 @@ func runC06(r *Run) {
 		r.count("methods of DefaultCtx analysed", len(ms))
 	})
 
+	r.rule("R5", "what a method of the context leaves behind a pointer parameter is a copy: memory written through a `*[]byte` / `*string` parameter does not alias fasthttp's buffers (the body as sent, kept while the request body is replaced, would be released with it) (E3)", func() {
+		cfg := immutableCfg()
+		cfg.pruneField = ""
+		te := newTaint(r.P, cfg)
+		n := 0
+		r.P.AllFuncs("", func(f *ssa.Function) {
+			if f.Signature.Recv() == nil || !strings.HasSuffix(f.Signature.Recv().Type().String(), "fiber/v3.DefaultCtx") {
+				return
+			}
+			for i, p := range f.Params {
+				pt, ok := p.Type().Underlying().(*types.Pointer)
+				if !ok || !isBytesOrString(pt.Elem()) {
+					continue
+				}
+				n++
+				sum := te.analyze(f, make([]bool, len(f.Params)), nil, "")
+				tainted := i < len(sum.mut) && sum.mut[i]
+				r.check(!tainted, fmt.Sprintf("%s:*%s:holds-a-copy", short(f.String()), p.Name()), r.fpos(f), "only copied bytes are stored behind the parameter",
+					short(f.String())+" stores a view of a fasthttp buffer behind *"+p.Name()+": for the body as sent, SetBodyRaw releases that buffer to the shared pool, another request's body overwrites it, and Body() puts the overwritten bytes back as the raw body")
+			}
+		})
+		r.atLeast("pointer-to-text parameters of context methods", n, 1)
+	})
+
 	r.rule("R2", "strings handed by the binders to the decoder / user maps are copies (E3)", func() {
 		cfg := immutableCfg()
 		cfg.pruneField = ""
